@@ -90,10 +90,12 @@ def run(F, rep, tier):
     search_first_match(rep, lua, mods)
     elements_are_values(rep, lua)
     values_compared_structurally(rep, lua)
+    presence_is_not_truth(rep, lua)
     integer_results(rep, lua)
     aliases(rep, mods)
     key_norm(rep, lua)
     key_injective(rep, lua)
+    key_not_coerced(rep, lua)
     keyed_table_size(rep, lua, mods)
     externals_fully_typed(F, rep, mods)
     declared_purity(rep, lua, mods)
@@ -293,6 +295,74 @@ def elements_are_values(rep, lua, rule="VALUE-SEM"):
                        "l[0] as it was" % (fname, nm, "the loop variable of pairs()" if how == "loop" else "`%s`" % luaparse.show(src)),
                        "sylt-compiler/src/preamble.lua:%s" % st.get("line"))
     rep.floor(rule, "indexed stores of library functions (into the given container or a local table)", n, 6)
+
+
+def presence_is_not_truth(rep, lua, rule="VALUE-SEM"):
+    """`false` is a value: an element, field or payload read out of a value the program handed over (`o[i + 1]`, `o[i]`) is
+    *present* when it is not nil.  Its truth must not stand for its presence - `assert(e, ..)`, `if e then`, `e or __NIL`,
+    `not e` treat a stored `false` as a missing element: `(7, false)[1]` dies with `index out of range`, `Maybe.Just false`
+    comes apart as nil."""
+    import c19
+    fns = []
+    for st in lua.ast["stmts"]:
+        if st.get("k") == "Assign":
+            for e in st["es"]:
+                if isinstance(e, dict) and e.get("k") == "Function":
+                    fns.append((luaparse.show(st["targets"][0]), e))
+        elif st.get("k") == "LocalFunction":
+            fns.append((st["name"], st["func"]))
+    n = 0
+    bad = []
+    for name, f in fns:
+        params = set(f["params"])
+        taken = {}
+        for st in luaparse.walk(f["body"]):
+            if st.get("k") == "Local":
+                for i_, nm in enumerate(st["names"]):
+                    if i_ < len(st["es"]) and st["es"][i_].get("k") == "Index":
+                        base = st["es"][i_]
+                        while base.get("k") == "Index":
+                            base = base["obj"]
+                        if base.get("k") == "Name" and base["name"] in params:
+                            taken[nm] = st["es"][i_]
+        if not taken:
+            continue
+
+        def is_taken(t):
+            return isinstance(t, dict) and t.get("k") == "Name" and t.get("name") in taken
+        for x in luaparse.walk(f["body"]):
+            k = x.get("k")
+            uses = []
+            if k == "If":
+                for c, _ in x["clauses"]:
+                    if c is not None:
+                        uses += list(c19._truth_uses(c))
+            elif k in ("While", "Repeat"):
+                uses += list(c19._truth_uses(x.get("cond") or x.get("c")))
+            elif k == "Call" and x["f"].get("k") == "Name" and x["f"]["name"] == "assert" and x["args"]:
+                uses += list(c19._truth_uses(x["args"][0]))
+            elif k == "Binop" and x.get("op") in ("and", "or"):
+                uses += [x["l"]]
+            elif k == "Unop" and x.get("op") == "not":
+                uses += [x["e"]]
+            for t in uses:
+                if is_taken(t):
+                    n += 1
+                    bad.append((name, t, x))
+        n += len(taken)
+    seen = set()
+    for name, t, x in bad:
+        key = "%s|%s|presence-by-truth" % (name, t["name"])
+        if key in seen:
+            continue
+        seen.add(key)
+        rep.ob(rule, key, False,
+               "%s reads `%s = %s` out of the value it was given and then lets the *truth* of `%s` decide (`%s`): a stored `false` counts "
+               "as missing - `(7, false)[1]` dies with `index out of range`, a `Maybe.Just false` comes apart as nil" % (
+                   name, t["name"], "..", t["name"], luaparse.show(x)[:60]), "sylt-compiler/src/preamble.lua:%s" % x.get("line"))
+    rep.ob(rule, "presence-is-compared-with-nil", not bad,
+           "no runtime function lets the truth of an element it read stand for its presence (%d reads examined)" % n, sites=n)
+    rep.floor(rule, "elements read out of given values", n, 3)
 
 
 def values_compared_structurally(rep, lua, rule="VALUE-SEM"):
@@ -676,6 +746,27 @@ def key_injective(rep, lua):
            "\", \": the tuples (\"a, b\", \"c\") and (\"a\", \"b, c\") are one key (set.add then set.contains of the other "
            "is true; dict.update of one overwrites the other). Numbers collide as well on Lua 5.1 (tostring uses %.14g).",
            "sylt-compiler/src/preamble.lua:%s" % f.get("line"))
+
+
+def key_not_coerced(rep, lua):
+    """the key under which an element is stored keeps distinct strings distinct: `tonumber` (or arithmetic on the key) reads
+    "7", "007", "7.0" and "0x7" as one number"""
+    n = 0
+    for fam in ("dict_", "set_"):
+        for form in sorted(_key_forms(lua, fam)):
+            n += 1
+            bodies = [form]
+            m = re.match(r"^([A-Za-z_][A-Za-z0-9_]*)\(K\)$", form)
+            if m and lua.globals.get(m.group(1), (None,))[0] == "function":
+                bodies.append(luaparse.show(lua.globals[m.group(1)][1]["body"]) if False else
+                              " ".join(luaparse.show(x) for x in luaparse.walk(lua.globals[m.group(1)][1]["body"]) if x.get("k") == "Call"))
+            coerces = any("tonumber(" in b_ or "math.tointeger(" in b_ for b_ in bodies)
+            rep.ob("KEY-NORM", "%s|%s|strings-stay-distinct" % (fam.rstrip("_"), form), not coerces,
+                   "the %s key `%s` does not read strings as numbers" % (fam.rstrip("_"), form) if not coerces else
+                   "the %s key `%s` goes through tonumber(): the strings \"7\", \"007\", \"7.0\" and \"0x7\" are one key - a Set(str) of "
+                   "them has length 1, and `contains \"07\"` is true although it was never added" % (fam.rstrip("_"), form),
+                   "sylt-compiler/src/preamble.lua")
+    rep.floor("KEY-NORM", "key forms examined for coercion", n, 2)
 
 
 def _key_forms(lua, fam):
